@@ -230,7 +230,7 @@ pub struct World<'a> {
 impl<'a> World<'a> {
     /// Incrementally maintained counts of EndRequest / management replies in the output.
     pub fn out_summary(&mut self) -> OutSummary {
-        let p = self.pipe.lock().unwrap();
+        let p = self.pipe.lock().unwrap_or_else(std::sync::PoisonError::into_inner);
         let out = &p.outbox;
         let (mut upto, sum) = (self.out_cache.0, &mut self.out_cache.1);
         while out.len() - upto >= 8 {
@@ -293,7 +293,7 @@ impl<'a> World<'a> {
             }
         }
         {
-            let p = self.pipe.lock().unwrap();
+            let p = self.pipe.lock().unwrap_or_else(std::sync::PoisonError::into_inner);
             if p.read_gated {
                 v.push(Action::ReaderReady);
             }
@@ -335,14 +335,14 @@ impl<'a> World<'a> {
                 let s = self.peer.sent;
                 let chunk = self.peer.wire[s..s + n].to_vec();
                 self.peer.sent += n;
-                self.pipe.lock().unwrap().peer_send(&chunk);
+                self.pipe.lock().unwrap_or_else(std::sync::PoisonError::into_inner).peer_send(&chunk);
             }
             Action::PeerClose => {
                 self.peer.closed = true;
-                self.pipe.lock().unwrap().peer_close();
+                self.pipe.lock().unwrap_or_else(std::sync::PoisonError::into_inner).peer_close();
             }
-            Action::ReaderReady => self.pipe.lock().unwrap().reader_ready(),
-            Action::WriterReady => self.pipe.lock().unwrap().writer_ready(),
+            Action::ReaderReady => self.pipe.lock().unwrap_or_else(std::sync::PoisonError::into_inner).reader_ready(),
+            Action::WriterReady => self.pipe.lock().unwrap_or_else(std::sync::PoisonError::into_inner).writer_ready(),
             Action::Shutdown => {
                 if let Some(f) = self.shutdown_fn.take() {
                     f();
